@@ -1685,4 +1685,79 @@ def r19(F, R):
     R.floor(2)
 
 
-RULES = [("R19", r19, ["all", "libtest"]), ("R18", r18, ["all", "libtest"]), ("R17", r17, None), ("R16", r16, ["all", "libtest"]), ("R15", r15, ["all", "junit"]), ("R14", r14, None), ("R13", r13, None), ("R12", r12, None), ("R11", r11, None), ("R10", r10, ["all", "json"]), ("R9", r9, None), ("R8", r8, ["all", "junit"]), ("R7", r7, ["all", "json"]), ("R6", r6, ["all", "json"]), ("R5", r5, ["all", "junit"]), ("R1", r1, None), ("R2", r2, None), ("R3", r3, None), ("R4", r4, None)]
+VERBOSITY_TABLE = {
+    # documented CLI semantics (doc comments of the two `Cli` structs): `-v` counts up from "keep what the writer was built with";
+    # `--junit-v 0|1` SETS the verbosity (0 = default, 1 = with World), absent = keep
+    "writer::basic::Basic": {0: None, 1: "Default", 2: "ShowWorld", "other": "ShowWorldAndDocString"},
+    "writer::junit::JUnit": {"None": None, 0: "Default", "other": "ShowWorld"},
+}
+
+
+def T_path(F, b, e):
+    """dotted path of the place a write effect stores into (`self.verbosity`)"""
+    from .termtypes import Typer
+    key = ("_typer", b.key)
+    cache = getattr(F, "_typer_cache", None)
+    if cache is None:
+        cache = F._typer_cache = {}
+    if key not in cache:
+        cache[key] = Typer(F, b, None)
+    try:
+        return cache[key].path(("ref", e[1]))
+    except Exception:
+        return None
+
+
+def r20(F, R):
+    """Reporter CLI options: what `apply_cli` does to the writer's verbosity per value of the option — on its deep table — is the documented
+    table (`-v` absent keeps the verbosity the writer was constructed with; `--junit-v 0` resets to the default, absent keeps)."""
+    from . import deep as D
+    n = 0
+    for adt, table in VERBOSITY_TABLE.items():
+        bs = [b for b in F.crate_bodies() if (b.impl or {}).get("self_adt") == adt and not (b.impl or {}).get("trait") and b.name.endswith("::apply_cli")]
+        if not bs:
+            continue
+        if len(bs) != 1:
+            raise Unverifiable(f"apply_cli of {adt}: {len(bs)}")
+        b = bs[0]
+        rows = D.Deep(F, b, max_paths=400).run()
+        if not rows or any(p.cut for p in rows):
+            raise Unverifiable(f"{adt}::apply_cli: empty table or a loop")
+        got = {}
+        for p in rows:
+            key = None
+            for a, o in p.conds:
+                if a[0] == "discr" and o == "None" and D.mentions(a, lambda y: y == ("arg", 2)) and "Coloring" not in str(a):
+                    key = "None"
+                elif a[0] != "discr" and D.mentions(a, lambda y: y == ("arg", 2)) and (isinstance(o, (int, bool)) or o == "other"):
+                    key = "other" if o == "other" else int(o)
+                    if isinstance(o, bool) and o is True:
+                        key = "other"      # a two-way switch on the number: `0` against everything else
+            ws = [e[2][2] for e in p.effects if e[0] == "write" and isinstance(e[2], tuple) and len(e[2]) == 4 and e[2][0] == "variant" and e[2][1].endswith("Verbosity")]
+            got.setdefault(key, set()).add(ws[-1] if ws else None)
+        flat = {k: (next(iter(v)) if len(v) == 1 else sorted(map(str, v))) for k, v in got.items()}
+        n += 1
+        computed = any(e[0] == "write" and (T_path(F, b, e) or "").endswith("verbosity") and not (isinstance(e[2], tuple) and len(e[2]) == 4 and e[2][0] == "variant") for p in rows for e in p.effects)
+        if computed:
+            # the value is computed (`Verbosity::from(n - 1)`): only the documented "keep" case is decided here — some row leaves the verbosity
+            # alone, and every such row has learned that the option is absent / zero; rows that learned so never write
+            def absent(p):
+                for a, o in p.conds:
+                    if a[0] == "discr" and o == "None" and D.mentions(a, lambda y: y == ("arg", 2)):
+                        return True
+                    if a[0] != "discr" and D.mentions(a, lambda y: y == ("arg", 2)):
+                        if (o == 0 and not isinstance(o, bool)) or (a[0] == "bin" and a[1] == "Lt" and a[3] == ("const", 1) and o is True) or (a[0] == "bin" and a[1] == "Eq" and a[3] == ("const", 0) and o is True):
+                            return True
+                return False
+            writes = lambda p: any(e[0] == "write" and (T_path(F, b, e) or "").endswith("verbosity") for e in p.effects)
+            keep_rows = [p for p in rows if not writes(p)]
+            ok_keep = bool(keep_rows) and all(absent(p) for p in keep_rows) and not any(writes(p) for p in rows if absent(p))
+            R.check(ok_keep, f"cli-verbosity/{adt.rsplit('::', 1)[-1]}", b, "an absent option keeps the constructed verbosity (computed form: only this clause is decided)",
+                    f"`{adt.rsplit('::', 1)[-1]}::apply_cli` overwrites the verbosity although the option is absent (or keeps it although it is given): the verbosity the writer was constructed with is lost at the first event")
+            continue
+        R.check(flat == table, f"cli-verbosity/{adt.rsplit('::', 1)[-1]}", b, f"option value -> verbosity: {table}",
+                f"`{adt.rsplit('::', 1)[-1]}::apply_cli` maps the verbosity option as {flat}; documented: {table} — the report no longer shows what the run was configured to show")
+    R.floor(1)
+
+
+RULES = [("R20", r20, None), ("R19", r19, ["all", "libtest"]), ("R18", r18, ["all", "libtest"]), ("R17", r17, None), ("R16", r16, ["all", "libtest"]), ("R15", r15, ["all", "junit"]), ("R14", r14, None), ("R13", r13, None), ("R12", r12, None), ("R11", r11, None), ("R10", r10, ["all", "json"]), ("R9", r9, None), ("R8", r8, ["all", "junit"]), ("R7", r7, ["all", "json"]), ("R6", r6, ["all", "json"]), ("R5", r5, ["all", "junit"]), ("R1", r1, None), ("R2", r2, None), ("R3", r3, None), ("R4", r4, None)]
